@@ -10,6 +10,8 @@ import (
 
 	"pgregory.net/rapid"
 
+	proto "github.com/kubewharf/kubebrain-client/api/v2rpc"
+
 	"github.com/kubewharf/kubebrain/pkg/backend"
 	"github.com/kubewharf/kubebrain/pkg/backend/coder"
 	"github.com/kubewharf/kubebrain/pkg/storage"
@@ -507,3 +509,121 @@ var specC10Parts = &Spec{
 }
 
 func TestC10Parts(t *testing.T) { RunProperty(t, specC10Parts) }
+
+// ---------------------------------------------------------------------------------------------------------------
+// bounds as the node computes them: records at arbitrary revisions (the maximum included) are placed in an engine
+// directly; range reads through a backend must return exactly the keys inside the raw bounds, also for bounds of the
+// form key+"\x00" ("immediately after key")
+
+type c10BoundsCase struct {
+	Recs  []c10Rec // one stored version per distinct key
+	Start B
+	End   B
+	After bool // the lower bound is Recs[0].K + "\x00"
+	Until bool // the upper bound is Recs[len-1].K + "\x00"
+}
+
+func genC10Bounds(t *rapid.T) interface{} {
+	c := &c10BoundsCase{}
+	seen := map[string]bool{}
+	var pool []B
+	for i := 0; i < rapid.IntRange(2, 6).Draw(t, "nkeys"); i++ {
+		k := genRawKey(t, "bk")
+		if len(pool) > 0 && DrawBool(t, 50, "derive") {
+			base := pool[DrawIntn(t, len(pool), "base")]
+			k = append(append(B{}, base...), byte(genAlphaByte().Draw(t, "ext")))
+		}
+		if len(k) == 0 || seen[string(k)] {
+			continue
+		}
+		seen[string(k)] = true
+		pool = append(pool, k)
+		r := genRev().Draw(t, "rev")
+		if r == 0 {
+			r = 1
+		}
+		c.Recs = append(c.Recs, c10Rec{K: k, R: r})
+	}
+	if len(c.Recs) == 0 {
+		c.Recs = []c10Rec{{K: B("a"), R: math.MaxUint64}}
+	}
+	c.Start, c.End = genRawKey(t, "start"), genRawKey(t, "end")
+	c.After, c.Until = DrawBool(t, 40, "after"), DrawBool(t, 40, "until")
+	return c
+}
+
+func runC10Bounds(ci interface{}, st *CaseStats) error {
+	c := ci.(*c10BoundsCase)
+	cd := coder.NewNormalCoder()
+	eng, err := OpenEngine(EngMem)
+	if err != nil {
+		return Inconclusivef("engine: %v", err)
+	}
+	defer eng.Close()
+	ctx := ClientCtx(0)
+	b := eng.KV.BeginBatchWrite()
+	hasMax := false
+	for _, r := range c.Recs {
+		key := append([]byte(Prefix+"/"), r.K...)
+		rb := make([]byte, 8)
+		binary.BigEndian.PutUint64(rb, r.R)
+		b.Put(cd.EncodeRevisionKey(key), rb, 0)
+		b.Put(cd.EncodeObjectKey(key, r.R), []byte("v"), 0)
+		if r.R == math.MaxUint64 {
+			hasMax = true
+		}
+	}
+	if err := b.Commit(ctx); err != nil {
+		return Inconclusivef("populate: %v", err)
+	}
+	bk := NewTestBackend(eng.KV, BackendOpts{Init: math.MaxUint64, Etcd: true})
+	defer StopBackend(bk)
+	lo, hi := append([]byte(Prefix+"/"), c.Start...), append([]byte(Prefix+"/"), c.End...)
+	if c.After {
+		lo = append(append([]byte(Prefix+"/"), c.Recs[0].K...), 0)
+	}
+	if c.Until {
+		hi = append(append([]byte(Prefix+"/"), c.Recs[len(c.Recs)-1].K...), 0)
+	}
+	if bytes.Compare(lo, hi) >= 0 {
+		lo, hi = hi, lo
+	}
+	if bytes.Equal(lo, hi) {
+		return nil
+	}
+	var want []string
+	for _, r := range c.Recs {
+		key := append([]byte(Prefix+"/"), r.K...)
+		if bytes.Compare(key, lo) >= 0 && bytes.Compare(key, hi) < 0 {
+			want = append(want, string(key))
+		}
+	}
+	sort.Strings(want)
+	resp, err := bk.List(ctx, &proto.RangeRequest{Key: lo, End: hi})
+	if err != nil {
+		return fmt.Errorf("List([%q,%q)) over records %v returned %v", lo, hi, c.Recs, err)
+	}
+	var got []string
+	for _, kv := range resp.Kvs {
+		got = append(got, string(kv.Key))
+	}
+	if fmt.Sprint(got) != fmt.Sprint(want) {
+		return fmt.Errorf("List([%q,%q)) over records %v returned %q, the raw keys inside the bounds are %q", lo, hi, c.Recs, got, want)
+	}
+	if (c.After || c.Until) && hasMax {
+		st.Label("immediately-after-bound-with-a-record-at-the-maximum-revision")
+		st.Nontrivial()
+	}
+	return nil
+}
+
+var specC10Bounds = &Spec{
+	ID:      "C10",
+	Rule:    "node-bounds mode: case = 1..6 keys over the alphabet (derived from each other), each with one version at a revision from the boundary-heavy generator (the maximum 2^64-1 included) written into the engine directly, and a raw range whose bounds are generated keys or an existing key followed by a zero byte. Oracle: an unlimited range read through a backend returns exactly the keys inside the raw bounds. Non-trivial = an 'immediately after key' bound together with a record at the maximum revision; distinct = SHA-1 of the case",
+	Gen:     genC10Bounds,
+	New:     func() interface{} { return &c10BoundsCase{} },
+	Run:     runC10Bounds,
+	Engines: []string{EngMem},
+}
+
+func TestC10Bounds(t *testing.T) { RunProperty(t, specC10Bounds) }
